@@ -1,7 +1,7 @@
 #!/bin/sh
 # Builds the framework from files on disk only (offline).
 set -e
-cd /verif
+cd "$(dirname "$0")"
 export GOFLAGS=-mod=mod GOPROXY=off GOSUMDB=off GOTOOLCHAIN=local
 mkdir -p bin .work evidence replays
 go build -o bin/vinstr ./cmd/vinstr
